@@ -387,6 +387,16 @@ def check(prop, tier, seed):
             os.remove(inp2); os.remove(obs2)
         os.remove(recs)
     n_events, bad, jstates, jtrans = judge(obs_path, wd, chunk=plan.get("chunk", 3000))
+    # a message whose Rust codec is hand-written is excused from the static table comparison only if the behavioural
+    # families actually exercised it
+    hand = {v["in"]["name"] for v in inputs if v.get("ev") == "schema_msg" and v["in"].get("Rhand")}
+    if hand:
+        seen = set()
+        for l in open(obs_path):
+            if '"wire_decode"' in l:
+                seen.add(json.loads(l)["in"].get("type"))
+        if hand - seen:
+            raise ToolError(f"hand-written codecs without behavioural coverage: {sorted(hand - seen)}")
     # verdicts
     known = load_known()
     violations, known_hits, foreign = [], {}, 0
